@@ -55,31 +55,40 @@ def check_item(item):
         tag = ob["tags"]["Block"]
         want = inner.name if inner is not None else None
         if (tag or None) != want:
-            probs.append((f"C05:block-tag:{'stale' if want is None else 'wrong' if tag else 'empty'}",
+            by_interrupt = any(li["name"] in ("End block", "End blocks") and fc.in_interrupt_body(info, li["idx"]) for li in info)
+            probs.append((f"C05:block-tag:{'stale' if want is None else 'wrong' if tag else 'empty'}" + (":blocks-ended-from-an-interrupt" if by_interrupt else ""),
                           f"tick {t}: Block tag is {tag!r} but the innermost active block is {want!r} (active {[b.name for b in active]})"))
         interrupts = {i.node.id for i in run.engine.interpreter.interrupts}
+        ends_now = [n for n in nodes if type(n).__name__ in ("EndBlockNode", "EndBlocksNode") and n.completed and n.id not in done_endblocks]
+        several_ends = len(ends_now) > 1          # main flow and an interrupt both ended blocks in this tick: only the union is judged
+        for n in nodes:
+            if type(n).__name__ == "BlockNode" and n.block_ended and n.id not in ended_tick:
+                ended_tick[n.id] = t
         for n in nodes:
             cls = type(n).__name__
-            if cls == "BlockNode" and n.block_ended and n.id not in ended_tick:
-                ended_tick[n.id] = t
             if cls in ("EndBlockNode", "EndBlocksNode") and n.completed and n.id not in done_endblocks:
                 done_endblocks.add(n.id)
-                gone = [b for b in prev_active if b not in active]
+                gone = [b for b in nodes if type(b).__name__ == "BlockNode" and b.block_ended and ended_tick.get(b.id) == t]
                 if cls == "EndBlockNode":
-                    pin = fc.innermost(prev_active)
-                    if prev_active and [b.id for b in gone] != [pin.id]:
+                    # candidates: blocks active before this tick plus blocks that took the lock earlier in this very tick
+                    cands = list(prev_active) + [b for b in gone if b not in prev_active]
+                    pin = fc.innermost(cands)
+                    if cands and [b.id for b in gone] != [pin.id] and not several_ends:
                         probs.append(("C05:end-block-ended-wrong-set",
                                       f"tick {t}: End block (line {n.id}) ended {[b.name for b in gone]}, innermost active was {pin.name}"))
-                    ended = [pin] if prev_active else []
+                    ended = [pin] if cands else []
                 else:
-                    if active:
-                        probs.append(("C05:end-blocks-left-active", f"tick {t}: End blocks (line {n.id}) left {[b.name for b in active]} active"))
+                    left_active = [b for b in prev_active if b in active]      # a block that became active later in this tick is not its business
+                    if left_active:
+                        probs.append(("C05:end-blocks-left-active", f"tick {t}: End blocks (line {n.id}) left {[b.name for b in left_active]} active"))
                     ended = list(prev_active)
                 for b in ended:
                     inside = {c.id for c in b.get_child_nodes(recursive=True)}
                     left = inside & interrupts & prev_interrupts
                     if left:
-                        probs.append(("C05:interrupt-survives-end-of-block",
+                        rect = fc.record_table(run)
+                        armed = all(any(nm == "awaitingcondition" and tk < t for nm, tk in rect.get(x, {"states": []})["states"]) for x in left)
+                        probs.append((f"C05:interrupt-survives-end-of-block:{'armed' if armed else 'registered-but-not-yet-run'}",
                                       f"tick {t}: block {b.name} ended but interrupts for lines {sorted(left)} inside it are still registered"))
         prev_active = active
         prev_interrupts = interrupts
@@ -95,12 +104,30 @@ def check_item(item):
                 probs.append(("C05:line-after-block-visited-before-block-ended",
                               f"line {li['id']} first visited at tick {rec[li['id']]['first_visit']}, block {b} ended at {ended_tick.get(b)}"))
     run.cleanup()
+    # structural context of the program: the interplay of interrupts with blocks has its own (known) defects; a violation in a
+    # program without that interplay keeps the plain signature
+    ctx_parts = []
+    if any(li["name"] in ("Block", "Watch", "Alarm") and any(info[p_]["name"] == "Alarm" for p_ in _ancestors(info, li["idx"])) for li in info):
+        ctx_parts.append("nested-in-Alarm")
+    if any(li["name"] in ("End block", "End blocks") and fc.in_interrupt_body(info, li["idx"]) for li in info):
+        ctx_parts.append("blocks-ended-from-an-interrupt")
+    suffix = (":" + "+".join(ctx_parts)) if ctx_parts else ""
     seen, out = set(), []
     for sig, what in probs:
+        sig = sig.replace(":blocks-ended-from-an-interrupt", "") + suffix
         if sig not in seen:
             seen.add(sig)
             out.append((sig, what))
     return out, max_depth
+
+
+def _ancestors(info, idx):
+    out = []
+    p_ = info[idx]["parent"]
+    while p_ is not None:
+        out.append(p_)
+        p_ = info[p_]["parent"]
+    return out
 
 
 def corpus(ctx):
